@@ -212,6 +212,11 @@ func adversarial(thorough bool) [][]byte {
 			h := []byte{mt<<5 | ai}
 			out = append(out, h, append(h, rep([]byte{0xff}, 8)...), append(h, rep([]byte{0x00}, 9)...),
 				append(append([]byte{}, h...), 0x80, 0, 0, 0, 0, 0, 0, 0), append(append([]byte{}, h...), 0x80, 0, 0, 0, 0, 0, 0, 1, 1, 2))
+			if ai >= 28 {
+				// reserved / indefinite-length heads followed by as many bytes as the info value itself
+				out = append(out, append(append([]byte{}, h...), rep([]byte{0x00}, 40)...), append(append([]byte{}, h...), rep([]byte{0x61}, int(ai))...),
+					append(append([]byte{0x82}, h...), append(rep([]byte{0x01}, int(ai)), 0x01)...))
+			}
 		}
 	}
 	// breadth without depth: k empty arrays / maps side by side (depth 2), also as a tag's content
